@@ -719,7 +719,10 @@ func c17ReflectCompare(ctx *core.Ctx, r *core.Report) {
 				have[cal.Name()] = true
 			}
 		})
-		for _, fam := range []struct{ name string; alts []string }{
+		for _, fam := range []struct {
+			name string
+			alts []string
+		}{
 			{"signed", []string{"Int"}},
 			{"unsigned", []string{"Uint"}},
 			{"float", []string{"Float"}},
